@@ -4,7 +4,11 @@ import KsVerif.Base.Verdict
 namespace KsVerif.Kfl.Macro
 open KsVerif
 
-def strOfSx (x : Sx) : Option String := x.asBytes?.map fun b => String.ofList (b.map fun u => Char.ofNat u.toNat)
+/-- the text of a case: UTF-8 (the generator writes valid UTF-8; anything else is read byte-wise) -/
+def strOfSx (x : Sx) : Option String := x.asBytes?.map fun b =>
+  match String.fromUTF8? (ByteArray.mk b.toArray) with
+  | some s => s
+  | none => String.ofList (b.map fun u => Char.ofNat u.toNat)
 
 /-- kfl.macro: model = `expand`; spec (C17): in the domain the expansion is the token-level
     rewrite, every run gives the same text, and expanding again changes nothing. -/
